@@ -62,12 +62,18 @@ func genC20(t *rapid.T) c20Case {
 	c.Seed = rapid.Uint64Range(1, 1<<40).Draw(t, "seed")
 	c.Regions = genRegions(t, c.Sectors)
 	if c.Tool == "decrypt-redump" {
-		c.Mark = rapid.SampledFrom([]string{"", "", "enc", "dec"}).Draw(t, "mark")
+		c.Mark = rapid.SampledFrom([]string{"", "", "enc", "dec", "enc-hidden", "dec-hidden"}).Draw(t, "mark")
 		// KeepKey is not generated: with the key file of its name still around, the decrypted output is an image
 		// "with a key and an invalid (cleared) region table", which C10 wants rejected - the server refuses to open
 		// it until the key file is removed (DESIGN 6.5, not accepted)
 	}
-	if c.Tool == "decrypt-3k3y" || c.Mark != "" {
+	if strings.HasSuffix(c.Mark, "-hidden") {
+		// the mark is part of the *plaintext* of an encrypted sector: the first plain region is sector 0 alone, the
+		// next one begins behind the mark area (the raw file shows ciphertext where the output will show the mark)
+		a := rapid.IntRange(3, 6).Draw(t, "hidden-next")
+		c.Regions = []refcrypt.Region{{Start: 0, End: 1}, {Start: uint32(a), End: uint32(a + rapid.IntRange(1, 3).Draw(t, "hidden-len"))}}
+	}
+	if c.Tool == "decrypt-3k3y" || c.Mark == "enc" || c.Mark == "dec" {
 		// the watermark area (sectors 1..2) must lie in the first plain region
 		for c.Regions[0].End < 3 {
 			for i := range c.Regions {
@@ -95,6 +101,18 @@ func (c c20Case) storedImage() []byte {
 		copy(data[0xF70:], wmEnc)
 	case "dec":
 		copy(data[0xF70:], wmDec)
+	case "enc-hidden", "dec-hidden":
+		// sector 1 is stored encrypted; its plaintext carries the mark
+		if d, err := refcrypt.NewDecryptor([]byte(c.Key)); err == nil {
+			sec := data[2048:4096]
+			d.DecryptSector(1, sec)
+			if c.Mark == "enc-hidden" {
+				copy(sec[0xF70-2048:], wmEnc)
+			} else {
+				copy(sec[0xF70-2048:], wmDec)
+			}
+			d.EncryptSector(1, sec)
+		}
 	}
 	return data
 }
@@ -291,6 +309,10 @@ func runC20(c c20Case, st *hx.Stats) error {
 			d := firstDiffB(expect[0], got)
 			return hx.Failf("output-exact", "%v: output (%d bytes) differs from the expected one (%d bytes) first at %d", args[:2], len(got), len(expect[0]), d)
 		}
+	}
+	// an output that still carries a 3k3y mark will be taken for a 3k3y image (and transformed) wherever it is served
+	if c.Tool != "make-iso" && len(got) >= 0xF80 && (bytes.Equal(got[0xF70:0xF80], wmEnc) || bytes.Equal(got[0xF70:0xF80], wmDec)) {
+		return hx.Failf("served-back", "%v: the output carries a 3k3y mark at 0xF70 (%q): served from anywhere it is transformed a second time", args[:2], got[0xF70:0xF80])
 	}
 	// ---- serve the output back: byte-identical, no second transformation
 	root := filepath.Join(tmp, "served")
